@@ -447,6 +447,8 @@ pub fn install_params(case: &Case) {
         cl::PRED_IDS[i].store(id, SeqCst);
     }
     source::WIDE.store(case.wide(), SeqCst);
+    // closure-free terminals over billions of elements run for minutes between two scheduling points
+    sched::WATCHDOG_S.store(if case.src == Src::PRangeBig { 1_800 } else { 60 }, SeqCst);
 }
 
 /// (threads spawned before the nested body started) << 16 | logical thread that runs the body
